@@ -18,13 +18,21 @@ fn usage() -> ! {
     std::process::exit(2);
 }
 
-pub fn judge_for(property: &str) -> Option<fn(&Case) -> Outcome> {
-    Some(match property {
-        "C02" => checks::c02::judge,
-        "C06" => checks::c06::judge,
-        "C09" => checks::c09::judge,
-        _ => return None,
-    })
+type RunFn = fn(&str, u64) -> i32;
+type JudgeFn = fn(&Case) -> Outcome;
+
+/// property id -> (run, judge)
+pub const CHECKS: &[(&str, RunFn, JudgeFn)] = &[
+    ("C02", checks::c02::run, checks::c02::judge),
+    ("C06", checks::c06::run, checks::c06::judge),
+    ("C07", checks::c07::run, checks::c07::judge),
+    ("C08", checks::c08::run, checks::c08::judge_strict),
+    ("C09", checks::c09::run, checks::c09::judge),
+    ("C10", checks::c10::run, checks::c10::judge),
+];
+
+pub fn judge_for(property: &str) -> Option<JudgeFn> {
+    CHECKS.iter().find(|(id, _, _)| *id == property).map(|(_, _, j)| *j)
 }
 
 fn main() {
@@ -55,11 +63,9 @@ fn main() {
             if tier != "quick" && tier != "thorough" {
                 usage();
             }
-            let code = match id.as_str() {
-                "C02" => checks::c02::run(&tier, seed),
-                "C06" => checks::c06::run(&tier, seed),
-                "C09" => checks::c09::run(&tier, seed),
-                _ => {
+            let code = match CHECKS.iter().find(|(i, _, _)| *i == id) {
+                Some((_, run, _)) => run(&tier, seed),
+                None => {
                     eprintln!("unknown property {id}");
                     2
                 }
